@@ -44,6 +44,7 @@ SIG15A = 'C16|eval→_resolve_expression_indexes|positional-slice-stop+1'
 SIG15B = 'C16|eval→_resolve_expression_indexes|positional-bracket-ValueError'
 SIG26 = 'C16|diff(x,0)|returns-x-not-zeros'
 SIG_LEAK = 'C16|eval(globals=None)|module-global-visible'
+SIG_LBL = 'C16|eval→_resolve_expression_indexes|label-with-colon-bracket-or-backtick'
 
 
 # =========================================================================== implementation side
@@ -199,9 +200,11 @@ def _loc_canon(r):
 
 
 def _attr_err(e):
+    """['raise', 'AttributeError', <the undefined name CPython reported>, <the message names exactly that attribute>]"""
     cause = e.__cause__
     name = getattr(cause, 'name', None) if isinstance(cause, NameError) else None
-    return ['raise', 'AttributeError', name, bool(name is not None and ("'%s'" % name) in str(e))]
+    m = re.search(r"has no attribute '([^']*)'", str(e))
+    return ['raise', 'AttributeError', name, bool(name is not None and m is not None and m.group(1) == name)]
 
 
 def impl_expr(case):
@@ -445,6 +448,24 @@ def names_of(ast):
     return []
 
 
+# labels that the bracket regular expression / the split on ':' / strip('`') cannot carry (finding SIG_LBL), and some that they can
+SPECIAL_LABELS = ['a', 'a:b', 'b', 'c]d', 'e[f', 'g`h', ' i ', '`j', '00:30', 'k`']
+
+
+def _special_label(lab):
+    return isinstance(lab, str) and (':' in lab or ']' in lab or lab.startswith('`') or lab.endswith('`') or '\n' in lab)
+
+
+def labels_of(ast):
+    out = []
+    for b in brackets_of(ast):
+        if b[0] == 'li':
+            out.append(b[1])
+        elif b[0] == 'ls':
+            out += [x for x in (b[1], b[2]) if x is not None]
+    return out
+
+
 SPAN_KINDS = ['range', 'strlist', 'intlist', 'mixlist', 'np_int', 'np_str', 'pd_int', 'pd_str', 'period_Y', 'period_Q']
 
 
@@ -456,7 +477,7 @@ def make_span(rng, kind=None):
         return {'kind': kind, 'type': 'range', 'labels': list(range(a, a + n))}
     if kind in ('strlist', 'np_str', 'pd_str'):
         pool = rng.choice([['a', 'b', 'c', 'd', 'e', 'f'], ['x1', 'y 2', 'z-3', 'w', 'v.5', 'u'], ['2000', '2001', '2002', '2003', '2004', '2005'],
-                           ['p', 'q', 'Q1', 'q2', 'r', 's']])
+                           ['p', 'q', 'Q1', 'q2', 'r', 's'], SPECIAL_LABELS])
         labs = rng.sample(pool, n)
         return {'kind': kind, 'type': {'strlist': 'list', 'np_str': 'np', 'pd_str': 'pd'}[kind], 'labels': labs}
     if kind in ('intlist', 'np_int', 'pd_int'):
@@ -552,7 +573,7 @@ def gen_ast(rng, span, names, depth, style, opts):
         if rng.random() < 0.3:
             node = ('sub', node, gen_bracket(rng, span, n, style))
         return node
-    return ('raw', rng.choice(['[1.5, 2.5][0]', '[0.5][0]', '(2.0)']))
+    return ('raw', rng.choice(['[1.5, 2.5][0]', '[0.5][0]', '(2.0)', "('a' + 1)", '(1 // 0)', '(2.0).nope', '(1.5 % 0)', 'X_undefined.real', '(lambda: q_undefined)()']))
 
 
 def probe_labels(expr):
@@ -605,7 +626,7 @@ def gen_text(rng, tier):
     extra = ['X[`a`]', 'X[ `a` : `1` ]', 'X[`a`:`1`:`11`]', 'X[]`', 'X[ ]]`', 'X[\n`a`\n]', 'X[`a`\n:]', 'X[1:2:3:4]`', 'X[`a`::]', 'X[::`a`]',
              'X[`a`] + [1, 2][0]', 'X[1_1]`', 'X[+1]`', 'X[-0]`', 'X[ 007 ]`', 'X[1 1]`', 'X[--1]`', 'X[1.0]`', 'X[\x0c1\x1f]`', 'X[\xa01\x85]`',
              'X[``a``]', 'X[`a]', 'X[a`]', 'X[`a`b`]', 'X[` a `]', 'X[` 1 `]', 'X[`+1`]', 'X[`1_1`]', 'X[`0011`]', 'X[`a`:]', 'X[:`a`]', 'X[:]`',
-             'X[`zz`]', 'X[`a`:`zz`]', 'X[Y[0]]`', 'X[[0]]`', '[[`a`]]', 'X[`a`][`1`]', 'X[:-1] + Y[`a`]', 'X[1:3] + Y[`a`]', 'X[a-1] + Y[`a`]']
+             'X[`zz`]', 'X[`a`:`zz`]', 'X[`1`1`]', 'X[`1`1`:`a`]', 'X[`a`1`]', 'X[``11``]', 'X[`1``1`]', 'X[1:2:3:4]', 'X[`a`:`1`:2:]', 'X[`a`:`1`: 2 : ]`', 'X[Y[0]]`', 'X[[0]]`', '[[`a`]]', 'X[`a`][`1`]', 'X[:-1] + Y[`a`]', 'X[1:3] + Y[`a`]', 'X[a-1] + Y[`a`]']
     cases += [{'kind': 'text', 'span': TEXT_SPAN, 's': s} for s in extra]
     pool = TEXT_ALPHABET + ['`a`', '`1`', '`11`', '`zz`', '-1', '+1', '1_1', ' : ', '[', ']', '\t', '_', '-', '+', '0', '2', 'X', '\x0c', '\xa0', '\x85', '\x1f', '(', ')', ',']
     for _ in range(1500 if tier == 'quick' else 20000):
@@ -788,6 +809,8 @@ def _ref_eval(case, mode, zero_identity=False):
         return ['oos']
     except NameError as e:
         return ['raise', 'AttributeError', e.name, True]
+    except AttributeError:
+        return ['raise', 'AttributeError', None, False]        # a genuine attribute error of the expression: passes through
     except Exception as e:
         return _exc(e)
 
@@ -817,6 +840,10 @@ def oracle_expr(case, obs, fails):
     if got == ref or ref == ['oos']:           # helper applied to something that is not a 1-D array / d < 0: outside the statement
         return
     has_tick, nonlit, stop = _risky(case)
+    if any(_special_label(x) for x in labels_of(case['ast'])):
+        bad(SIG_LBL, 'a backticked label containing a colon / closing bracket / edge backtick is not read as that label: eval(%r) = %s, label indexing gives %s'
+            % (case['expr'], str(got)[:120], str(ref)[:120]))
+        return
     if has_tick and nonlit and got[:2] == ['raise', 'ValueError']:
         bad(SIG15B, 'with a backtick elsewhere in the expression a non-literal positional bracket raises ValueError: %r' % case['expr'])
         return
@@ -864,7 +891,10 @@ def oracle_helper(case, obs, fails):
     elif f == 'diff':
         import numpy as np
         xa = np.array(x, dtype=float if isf else np.int64)
-        want = [(xa[i] - xa[i - p]) if i >= p else fill for i in range(n)]
+        with np.errstate(all='ignore'):
+            want = [(xa[i] - xa[i - p]) if i >= p else fill for i in range(n)]
+        if not isf:
+            want = [int(v) for v in want]
         if not all(eq(a, b) for a, b in zip(got, want)):
             if p == 0 and all(eq(a, b) for a, b in zip(got, x)):
                 bad(SIG26, 'diff(x, 0) returns x itself (%s) where the stated formula x[i] - x[i-0] gives zeros' % out[1])
@@ -966,6 +996,9 @@ def _cfl(h):
 
 def _c_outcome_list(out, conv):
     if out[0] == 'ret':
+        isf = conv is not lib.cZ
+        if any(isinstance(v, str) != isf for v in out[1]):
+            return '(Raise OtherError)'          # result of another dtype than the argument: never what the model says
         return '(Ret %s)' % lib.clist(conv(v) for v in out[1])
     return '(Raise %s)' % {'NotImplementedError': 'NotImplementedError', 'ValueError': 'ValueError', 'TypeError': 'TypeError',
                            'IndexError': 'IndexError', 'KeyError': 'KeyError', 'AttributeError': 'AttributeError'}.get(out[1], 'OtherError')
